@@ -246,7 +246,66 @@ fn roundtrip<T: SerdeAPI + Clone>(ctx: &mut Ctx, ty: &str, state: &str, x: &T) -
         }
         out.push((f, y));
     }
+    file_roundtrip(ctx, ty, state, x, &xv);
     out
+}
+
+/// The file API (`to_file` / `from_file`), always to the same three paths of this process: the
+/// "latest checkpoint" pattern, where a file is overwritten by objects of other sizes and types.
+fn file_roundtrip<T: SerdeAPI + Clone>(ctx: &mut Ctx, ty: &str, state: &str, x: &T, xv: &Y) {
+    use std::cell::RefCell;
+    thread_local! { static LAST_LEN: RefCell<[u64; 3]> = const { RefCell::new([0; 3]) }; }
+    let dir = std::env::temp_dir().join(format!("altrios-verif-{}", std::process::id()));
+    if std::fs::create_dir_all(&dir).is_err() {
+        ctx.count("obs.file_scratch_unavailable");
+        return;
+    }
+    for (i, ext) in ["yaml", "json", "bin"].iter().enumerate() {
+        let path = dir.join(format!("latest.{ext}"));
+        ctx.count("obs.file_roundtrips");
+        if let Err(e) = x.to_file(&path) {
+            let e: String = format!("{e:#}").chars().take(200).collect();
+            fail(ctx, ty, state, if *ext == "bin" { "bincode" } else { ext }, "serialize", &e, &skipped_fields(x), &non_finite_paths(x));
+            let _ = std::fs::remove_file(&path);
+            LAST_LEN.with(|l| l.borrow_mut()[i] = 0);
+            continue;
+        }
+        let expect_len = match *ext {
+            "yaml" => x.to_yaml().map(|s| s.len() as u64).ok(),
+            "json" => x.to_json().map(|s| s.len() as u64).ok(),
+            _ => x.to_bincode().map(|b| b.len() as u64).ok(),
+        };
+        let len = std::fs::metadata(&path).map(|m| m.len()).unwrap_or(0);
+        let prev = LAST_LEN.with(|l| std::mem::replace(&mut l.borrow_mut()[i], len));
+        if let Some(el) = expect_len {
+            if prev > el {
+                ctx.count("obs.file_overwrites_of_a_longer_file");
+            }
+        }
+        match T::from_file(&path) {
+            Ok(y) => {
+                ctx.count("obs.file_roundtrips_ok");
+                let yv_ = yv(&y);
+                let ok = if *ext == "json" { y_approx(xv, &yv_, 4e-16) } else { *xv == yv_ || y_approx(xv, &yv_, 0.0) };
+                if !ok {
+                    ctx.violate("reload_equal", &format!("C17:file:{ext}:reload_differs:{ty}"), format!("{ty} [{state}] file.{ext}: object read back from the file differs from the one written"), json!({"type": ty, "state": state, "previous_file_len": prev, "file_len": len}));
+                }
+            }
+            Err(e) => {
+                // only a failure of the file API itself is new information: the string API of the same format is judged above
+                let string_api_ok = match *ext {
+                    "yaml" => x.to_yaml().ok().map(|s| T::from_yaml(s).is_ok()),
+                    "json" => x.to_json().ok().map(|s| T::from_json(s).is_ok()),
+                    _ => x.to_bincode().ok().map(|b| T::from_bincode(&b).is_ok()),
+                }
+                .unwrap_or(false);
+                if string_api_ok {
+                    let e: String = format!("{e:#}").chars().take(200).collect();
+                    ctx.violate("file_readable", &format!("C17:file:{ext}:unreadable_after_overwrite"), format!("{ty} [{state}]: from_file fails on the file just written by to_file ({e}) although the same object round-trips through the {ext} string API; previous file at this path had {prev} bytes, this one {len}"), json!({"type": ty, "state": state, "previous_file_len": prev, "file_len": len}));
+                }
+            }
+        }
+    }
 }
 
 // ---------------------------------------------------------------- simulations with checkpoints
@@ -358,6 +417,13 @@ fn short_power_trace(rng: &mut Rng, rating: f64, n: usize, neg: bool) -> PowerTr
     PowerTrace::new(t, p, vec![Some(true); len])
 }
 
+/// a state of charge outside the [min_soc, max_soc] window (valid: e.g. after the window was narrowed)
+fn off_window_soc(r: &mut ReversibleEnergyStorage, rng: &mut Rng) {
+    let (lo, hi) = (r.min_soc.value, r.max_soc.value);
+    let above = hi < 0.999 && (rng.chance(0.7) || lo <= 0.001);
+    r.state.soc = uc::R * if above { hi + (1.0 - hi) * rng.range(0.2, 1.0) } else { lo * rng.range(0.0, 0.8) };
+}
+
 fn mid_soc(l: &mut Locomotive) {
     if let Some(r) = l.reversible_energy_storage_mut() {
         r.state.soc = uc::R * ((r.min_soc.value + r.max_soc.value) / 2.0);
@@ -365,7 +431,7 @@ fn mid_soc(l: &mut Locomotive) {
 }
 
 pub fn run_c17(ctx: &mut Ctx, rng: &mut Rng, _t: bool) {
-    let which = ctx.case % 12;
+    let which = ctx.case % 13;
     let interval = *rng.pick(&[None, Some(1), Some(3)]);
     match which {
         0 => {
@@ -378,6 +444,13 @@ pub fn run_c17(ctx: &mut Ctx, rng: &mut Rng, _t: bool) {
             roundtrip(ctx, "Generator", "generated", &gp::generator(rng, 1e6));
             roundtrip(ctx, "ElectricDrivetrain", "generated", &gp::edrv(rng, 2e6));
             roundtrip(ctx, "ReversibleEnergyStorage", "generated", &gp::res(rng));
+            let mut r = gp::res(rng);
+            off_window_soc(&mut r, rng);
+            roundtrip(ctx, "ReversibleEnergyStorage", "generated, soc outside window", &r);
+            let mut r = ReversibleEnergyStorage::default();
+            r.max_soc = uc::R * 0.8;
+            off_window_soc(&mut r, rng);
+            roundtrip(ctx, "ReversibleEnergyStorage", "default, window narrowed", &r);
         }
         1 => {
             roundtrip(ctx, "ConventionalLoco", "default", &ConventionalLoco::default());
@@ -399,6 +472,11 @@ pub fn run_c17(ctx: &mut Ctx, rng: &mut Rng, _t: bool) {
             }
             let kk = if rng.chance(0.5) { Kind::Conv } else { Kind::Bel };
             roundtrip(ctx, "Locomotive", "generated", &gp::locomotive(rng, kk));
+            let mut lb = gp::locomotive(rng, Kind::Bel);
+            if let Some(r) = lb.reversible_energy_storage_mut() {
+                off_window_soc(r, rng);
+            }
+            roundtrip(ctx, "Locomotive(battery)", "generated, soc outside window", &lb);
             roundtrip(ctx, "Consist", "default", &Consist::default());
             let n = rng.usize(1, 5);
             roundtrip(ctx, "Consist", "generated", &gp::consist(rng, n).0);
@@ -452,9 +530,19 @@ pub fn run_c17(ctx: &mut Ctx, rng: &mut Rng, _t: bool) {
             let kind = if rng.chance(0.5) { Kind::Conv } else { Kind::Bel };
             let mut l = if rng.chance(0.5) { gp::locomotive(rng, kind) } else if kind == Kind::Conv { Locomotive::default() } else { Locomotive::default_battery_electric_loco() };
             mid_soc(&mut l);
+            // a battery that starts above its window and is only discharged
+            let high = kind == Kind::Bel && rng.chance(0.3);
+            if high {
+                if let Some(r) = l.reversible_energy_storage_mut() {
+                    if r.max_soc.value < 0.999 {
+                        r.state.soc = uc::R * (r.max_soc.value + (1.0 - r.max_soc.value) * rng.range(0.3, 1.0));
+                        ctx.count("obs.checkpoint_runs_starting_above_soc_window");
+                    }
+                }
+            }
             let rating = l.get_pwr_rated().value;
             let n = rng.usize(8, 40);
-            let sim = LocomotiveSimulation::new(l, short_power_trace(rng, rating, n, kind == Kind::Bel), interval);
+            let sim = LocomotiveSimulation::new(l, short_power_trace(rng, rating, n, kind == Kind::Bel && !high), interval);
             checkpoints(ctx, &sim, 100);
             roundtrip(ctx, "LocomotiveSimulation", "default", &LocomotiveSimulation::default());
         }
@@ -488,6 +576,17 @@ pub fn run_c17(ctx: &mut Ctx, rng: &mut Rng, _t: bool) {
                 }
             }
             roundtrip(ctx, "SetSpeedTrainSim", "default", &SetSpeedTrainSim::default());
+        }
+        12 => {
+            // estimated-time networks (and the timed link paths dispatch makes of them)
+            if let Some(inst) = crate::gen::dispatch::instance(rng, 2) {
+                for t in inst.trains.iter().take(1) {
+                    if let Ok(Ok((net, _))) = crate::panics::guard(std::panic::AssertUnwindSafe(|| altrios_core::meet_pass::est_times::make_est_times(t.sim.clone(), &inst.links))) {
+                        ctx.count("obs.est_time_nets_round_tripped");
+                        roundtrip(ctx, "EstTimeNet", "built", &net);
+                    }
+                }
+            }
         }
         _ => {
             if let Some(b) = mt::build_case(rng, 600.0) {
